@@ -23,7 +23,7 @@
 (* C15 / C17 for EVERY operand of small layouts.                             *)
 (* Written against the Num interface: runs in both number domains.          *)
 (***************************************************************************)
-EXTENDS Sem
+EXTENDS Sem, TrigTables
 
 MAOk(v, it)  == [k |-> "ok", v |-> v, it |-> it]
 MAErr(it)    == [k |-> "err", v |-> Z0, it |-> it]
@@ -191,9 +191,7 @@ ATAN128 == <<
    <<0, 0, 0, 0, 32064, 32767, 32767, 16383>> >>
 K128 == <<0, 0, 0, 0, 0, 0, 964, 27176, 14966, 155>>     \* 1 / 1.6467602578923106
 FromU128(j, L) == ZFloorShr(ZJ(j), 128 - LF(L))
-TWOPI23 == 52707178        \* I9F23 bits of TWO_PI, PI, FRAC_PI_2 (consts::PI.to_bits() >> 102, 103, 104)
-PI23    == 26353589
-HPI23   == 13176794
+\* TWOPI23, PI23, HPI23: I9F23 bits of TWO_PI, PI, FRAC_PI_2 (consts::PI.to_bits() >> 102, 103, 104) -- module TrigTables
 \* value comparison of bits a (f fractional bits) with an I9F23 constant
 GtC(a, L, c23) == IF LF(L) >= 23 THEN ZLt(ZShl(ZI(c23), LF(L) - 23), a) ELSE ZLt(ZI(c23), ZShl(a, 23 - LF(L)))
 LtC(a, L, c23) == IF LF(L) >= 23 THEN ZLt(a, ZShl(ZI(c23), LF(L) - 23)) ELSE ZLt(ZShl(a, 23 - LF(L)), ZI(c23))
